@@ -3,29 +3,31 @@
 # /verif/run.sh replay <file>            re-execute one recorded violation
 # /verif/run.sh setup                    build everything once (MANIFEST.setup_cmd)
 set -u
+V="$(cd "$(dirname "$0")" && pwd)"   # normally /verif; a snapshot of it works too
+export VERIF_DIR="$V"
 export GOFLAGS=-mod=mod GOPROXY=off GOSUMDB=off GOTOOLCHAIN=local GONOSUMDB=* GONOSUMCHECK=1
 export SOURCE_DATE_EPOCH=1700000000
-cd /verif/mc || exit 2
-mkdir -p /verif/bin
+cd "$V/mc" || exit 2
+mkdir -p "$V/bin" "$V/evidence" "$V/replays"
 build() {
   # the harness links /repo (replace directive) so this rebuilds from /repo's working tree
   cp /repo/go.sum go.sum 2>/dev/null
-  if ! go build -o /verif/bin/mc ./cmd/mc 2>/verif/bin/build.log; then
+  if ! go build -o $V/bin/mc ./cmd/mc 2>$V/bin/build.log; then
     # the harness itself builds on the unchanged tree; a failure here comes from the tree under test
-    cat /verif/bin/build.log >&2
+    cat $V/bin/build.log >&2
     return 1
   fi
-  go build -o /verif/bin/maporder ./cmd/maporder 2>>/verif/bin/build.log || { cat /verif/bin/build.log >&2; return 1; }
+  go build -o $V/bin/maporder ./cmd/maporder 2>>$V/bin/build.log || { cat $V/bin/build.log >&2; return 1; }
 }
 # C15: instrument every map iteration of /repo's current sources and build the explorer against that overlay
 build15() {
-  rm -rf /verif/bin/c15overlay
-  if ! (cd /repo && /verif/bin/maporder /verif/bin/c15overlay) >/verif/bin/maporder.log 2>&1; then
-    cat /verif/bin/maporder.log >&2
+  rm -rf $V/bin/c15overlay
+  if ! (cd /repo && $V/bin/maporder $V/bin/c15overlay) >$V/bin/maporder.log 2>&1; then
+    cat $V/bin/maporder.log >&2
     return 1
   fi
-  if ! go build -tags verifmaporder -overlay /verif/bin/c15overlay/overlay.json -o /verif/bin/mc15 ./cmd/mc 2>/verif/bin/build15.log; then
-    cat /verif/bin/build15.log >&2
+  if ! go build -tags verifmaporder -overlay $V/bin/c15overlay/overlay.json -o $V/bin/mc15 ./cmd/mc 2>$V/bin/build15.log; then
+    cat $V/bin/build15.log >&2
     return 1
   fi
 }
@@ -38,9 +40,9 @@ case "${1:-}" in
     build || exit 2
     if grep -q '"property": "C15"' "$2"; then
       build15 || exit 2
-      exec /verif/bin/mc15 replay "$2"
+      exec $V/bin/mc15 replay "$2"
     fi
-    exec /verif/bin/mc replay "$2";;
+    exec $V/bin/mc replay "$2";;
   "")
     echo "usage: run.sh <id> quick|thorough" >&2; exit 2;;
   *)
@@ -54,7 +56,7 @@ case "${1:-}" in
         echo "instrumented build failed against /repo's working tree (see above)" >&2
         exit 2
       fi
-      exec /verif/bin/mc15 check "$id" "$tier"
+      exec $V/bin/mc15 check "$id" "$tier"
     fi
-    exec /verif/bin/mc check "$id" "$tier";;
+    exec $V/bin/mc check "$id" "$tier";;
 esac
